@@ -99,6 +99,13 @@ def grid(ctx, rng):
         specs.append(dict(seed=ctx.seed + 5000 + k, maxdata=4096, rid='plus', frag='whole',
                           ops=[dict(api='push', src='dir', path='/sdcard/dir%d' % k, files=[['a.txt', 10], ['b.bin', 5000]], cwd=('inside', 'elsewhere')[k % 2], mtime=5,
                                     plan=dict(where=where, k=kk, reason='read-only file system'), read_timeout_s=2.0)]))
+    # a directory push in which the device rejects one file that is not the last one and accepts the others
+    for nth in (0, 1):
+        for where in ('SEND', 'DONE'):
+            k += 1
+            specs.append(dict(seed=ctx.seed + 5100 + k, maxdata=4096, rid='plus', frag='whole',
+                              ops=[dict(api='push', src='dir', path='/sdcard/part%d' % k, files=[['a.txt', 10], ['b.bin', 5000], ['c.bin', 100]], cwd='elsewhere', mtime=5,
+                                        plan=dict(where=where, k=0, reason='quota exceeded', nth=nth), read_timeout_s=2.0)]))
     # missing file (the device's own FAIL)
     specs.append(dict(seed=1, maxdata=4096, rid='plus', frag='whole', ops=[dict(api='pull', size=None, path='/missing', plan=dict(where=None, reason='No such file'), read_timeout_s=2.0)]))
     # status ids that are valid FileSync ids but not valid at that point
